@@ -2,16 +2,20 @@ pub mod common;
 pub mod c01;
 pub mod c03;
 pub mod c04;
+pub mod c05;
+pub mod c07;
 
 use crate::engine::Property;
 
-pub const ALL_IDS: &[&str] = &["C01", "C03", "C04"];
+pub const ALL_IDS: &[&str] = &["C01", "C03", "C04", "C05", "C07"];
 
 pub fn build(id: &str) -> Option<Property> {
     match id {
         "C01" => Some(c01::build()),
         "C03" => Some(c03::build()),
         "C04" => Some(c04::build()),
+        "C05" => Some(c05::build()),
+        "C07" => Some(c07::build()),
         _ => None,
     }
 }
